@@ -36,37 +36,6 @@ theorem master_sound (kind : Kind) (seed : Bytes) (n : Node) (h : fromMasterSecr
   rw [master_eq]
   exact if_neg hc
 
-theorem master_refused (kind : Kind) (seed : Bytes) (h : Spec.BIP32.master (mathCrypto g.c) seed = none) :
-    fromMasterSecret g kind seed = .error .invalidSecretExponent := by
-  rw [master_eq] at h
-  have hc : beNat ((Hash.hmacSha512 seedKey seed).take 32) = 0 ∨ g.c.n ≤ beNat ((Hash.hmacSha512 seedKey seed).take 32) := by
-    by_contra hc
-    rw [if_neg hc] at h
-    cases h
-  have hr : (fromBytes32 ((Hash.hmacSha512 seedKey seed).take 32) < 1 ∨
-      fromBytes32 ((Hash.hmacSha512 seedKey seed).take 32) ≥ g.c.n) := by
-    simp only [fromBytes32]; omega
-  simp only [fromMasterSecret, mkNode, keyInit, hr, if_true]
-
-theorem master_complete (kind : Kind) (seed : Bytes) (x : Spec.BIP32.XPrv) (q : Int × Int)
-    (h : Spec.BIP32.master (mathCrypto g.c) seed = some x) (hmul : g.mul (x.k : Int) = .ok (some q))
-    (hon : containsXY g.c q.1 q.2 = true) :
-    fromMasterSecret g kind seed = .ok ⟨kind, x.c, 0, [0, 0, 0, 0], 0, some (x.k : Int), q⟩ := by
-  rw [master_eq] at h
-  split at h
-  · cases h
-  · rename_i hc
-    injection h with h; subst h
-    have hr : ¬ (fromBytes32 ((Hash.hmacSha512 seedKey seed).take 32) < 1 ∨
-        fromBytes32 ((Hash.hmacSha512 seedKey seed).take 32) ≥ g.c.n) := by
-      simp only [fromBytes32]; omega
-    have hl : ((Hash.hmacSha512 seedKey seed).drop 32).length = 32 := by simp [hmacSha512_length]
-    obtain ⟨qx, qy⟩ := q
-    simp only [fromBytes32] at hr
-    simp only [fromMasterSecret, mkNode, keyInit, fromBytes32, hr, if_false, hmul, hon, if_true, hl, ne_eq, not_true_eq_false,
-      List.length_cons, List.length_nil]
-    rfl
-
 /-! ## counting the invalid case of CKD -/
 
 /-- the 32-byte strings `I_L` with `parse256(I_L) ≥ n` are exactly the encodings `ser256(v)` of the `2²⁵⁶ − n` numbers
